@@ -58,19 +58,42 @@ Definition case_name (u : N) : bs :=
   else if u =? 4 then n_mallory else if u =? 5 then n_Alice else if u =? 6 then []
   else if u =? 7 then n_alice_slash else [63].
 
+(* ---- the server's identity: HostIdentity of the harness configuration; the listen address is a
+   dimension (index 0 = ":443", the issuer is then "https://keymaster.example"; 1 = ":8443") *)
+Definition case_host : bs := [107;101;121;109;97;115;116;101;114;46;101;120;97;109;112;108;101].   (* "keymaster.example" *)
+Definition s_port8443 : bs := [58;56;52;52;51].   (* ":8443" *)
+Definition addr_of_index (a : N) : bs := if a =? 0 then s_port443 else s_port8443.
+Definition case_issuer (a : N) : bs := s_https ++ case_host ++ (if a =? 0 then [] else s_port8443).
+Definition iss0 : bs := case_issuer 0.
+Definition other_issuer : bs := [104;116;116;112;115;58;47;47;111;116;104;101;114;46;101;120;97;109;112;108;101].   (* "https://other.example" *)
+
 (* ---- credential shapes; times are relative to now = 0 *)
-Definition tok (sub level : N) : token :=
-  {| t_signer_trusted := true; t_alg_allowed := true; t_tampered := false; t_iss_ok := true;
-     t_aud_ok := true; t_kind := 0; t_nbf := (-100)%Z; t_exp := 3600%Z; t_iat := (-100)%Z;
-     t_sub := sub; t_level := level |}.
-Definition with_times (t : token) (nbf exp : Z) : token :=
-  {| t_signer_trusted := t_signer_trusted t; t_alg_allowed := t_alg_allowed t; t_tampered := t_tampered t;
-     t_iss_ok := t_iss_ok t; t_aud_ok := t_aud_ok t; t_kind := t_kind t; t_nbf := nbf; t_exp := exp;
-     t_iat := t_iat t; t_sub := t_sub t; t_level := t_level t |}.
-Definition with_flags (t : token) (trusted alg tampered iss aud : bool) (kind : N) : token :=
-  {| t_signer_trusted := trusted; t_alg_allowed := alg; t_tampered := tampered;
-     t_iss_ok := iss; t_aud_ok := aud; t_kind := kind; t_nbf := t_nbf t; t_exp := t_exp t;
-     t_iat := t_iat t; t_sub := t_sub t; t_level := t_level t |}.
+Definition tok (sub level : N) : wtoken :=
+  {| w_signer_trusted := true; w_alg_allowed := true; w_tampered := false; w_iss := iss0;
+     w_aud := [iss0]; w_kind := 0; w_nbf := (-100)%Z; w_exp := 3600%Z; w_iat := (-100)%Z;
+     w_sub := sub; w_level := level |}.
+Definition with_times (t : wtoken) (nbf exp : Z) : wtoken :=
+  {| w_signer_trusted := w_signer_trusted t; w_alg_allowed := w_alg_allowed t; w_tampered := w_tampered t;
+     w_iss := w_iss t; w_aud := w_aud t; w_kind := w_kind t; w_nbf := nbf; w_exp := exp;
+     w_iat := w_iat t; w_sub := w_sub t; w_level := w_level t |}.
+Definition with_claims (t : wtoken) (iss : bs) (aud : list bs) : wtoken :=
+  {| w_signer_trusted := w_signer_trusted t; w_alg_allowed := w_alg_allowed t; w_tampered := w_tampered t;
+     w_iss := iss; w_aud := aud; w_kind := w_kind t; w_nbf := w_nbf t; w_exp := w_exp t;
+     w_iat := w_iat t; w_sub := w_sub t; w_level := w_level t |}.
+(* signature side and kind; iss / aud: true = this server's issuer, false = some unrelated issuer *)
+Definition with_flags (t : wtoken) (trusted alg tampered iss aud : bool) (kind : N) : wtoken :=
+  {| w_signer_trusted := trusted; w_alg_allowed := alg; w_tampered := tampered;
+     w_iss := if iss then w_iss t else other_issuer; w_aud := if aud then w_aud t else [other_issuer];
+     w_kind := kind; w_nbf := w_nbf t; w_exp := w_exp t;
+     w_iat := w_iat t; w_sub := w_sub t; w_level := w_level t |}.
+
+(* what a request carries beside the certificate: (auth_cookie, Basic header) *)
+Definition creds := (option wtoken * option basic)%type.
+Definition NoCr : creds := (None, None).
+Definition Ck (t : wtoken) : creds := (Some t, None).
+Definition bas (u : N) (ok err : bool) : basic := {| b_user := u; b_ok := ok; b_err := err |}.
+Definition Ba (u : N) (ok err : bool) : creds := (None, Some (bas u ok err)).
+Definition CkBa (t : wtoken) (u : N) (ok err : bool) : creds := (Some t, Some (bas u ok err)).
 
 Definition cert (chain2 : bool) (iss : issuer) (trusted : bool) (cn : N) (denied iperr ipvalid autom : bool) : tlsinfo :=
   {| c_chain2 := chain2; c_issuer := iss; c_issuer_key_trusted := trusted; c_cn := cn; c_denied := denied;
@@ -78,13 +101,14 @@ Definition cert (chain2 : bool) (iss : issuer) (trusted : bool) (cn : N) (denied
      c_revoked := false |}.
 
 Record shape := {
-  h_origin : origin; h_tls : option tlsinfo; h_cred : cred; h_target : N; h_limiter_ok : bool }.
-Definition sh (c : cred) (target : N) : shape :=
-  {| h_origin := NoOrigin; h_tls := None; h_cred := c; h_target := target; h_limiter_ok := true |}.
-Definition sh_tls (c : tlsinfo) (cr : cred) (target : N) : shape :=
-  {| h_origin := NoOrigin; h_tls := Some c; h_cred := cr; h_target := target; h_limiter_ok := true |}.
-Definition sh_origin (o : origin) (c : cred) (target : N) : shape :=
-  {| h_origin := o; h_tls := None; h_cred := c; h_target := target; h_limiter_ok := true |}.
+  h_origin : origin; h_tls : option tlsinfo; h_creds : creds; h_target : N; h_limiter_ok : bool;
+  h_addr : N }.               (* index of the server's listen address *)
+Definition sh (c : creds) (target : N) : shape :=
+  {| h_origin := NoOrigin; h_tls := None; h_creds := c; h_target := target; h_limiter_ok := true; h_addr := 0 |}.
+Definition sh_tls (c : tlsinfo) (cr : creds) (target : N) : shape :=
+  {| h_origin := NoOrigin; h_tls := Some c; h_creds := cr; h_target := target; h_limiter_ok := true; h_addr := 0 |}.
+Definition sh_origin (o : origin) (c : creds) (target : N) : shape :=
+  {| h_origin := o; h_tls := None; h_creds := c; h_target := target; h_limiter_ok := true; h_addr := 0 |}.
 
 (* addresses and netblocks of the IP-certificate shapes *)
 Definition ipv4 (a b c d : N) : N := ((a * 256 + b) * 256 + c) * 256 + d.
@@ -99,79 +123,80 @@ Definition fwd (a : N) (xff : list N) (xreal forwarded : option N) : conn :=
   {| n_peer := a; n_xff := xff; n_xreal := xreal; n_forwarded := forwarded |}.
 (* an automation certificate with these blocks presented on this connection *)
 Definition ip_shape (iss : issuer) (blocks : list (N * N)) (cn : conn) (target : N) : shape :=
-  sh_tls (with_ip_valid (cert true iss true 3 false false false true) (ip_valid (Some blocks) cn)) NoCred target.
+  sh_tls (with_ip_valid (cert true iss true 3 false false false true) (ip_valid (Some blocks) cn)) NoCr target.
 
-Definition u2f_cookie (sub : N) : cred := Cookie (tok sub bU2F).
-Definition bad_cookie : cred := Cookie (with_flags (tok 1 bU2F) false true false true true 0).
+Definition u2f_cookie (sub : N) : creds := Ck (tok sub bU2F).
+Definition bad_token : wtoken := with_flags (tok 1 bU2F) false true false true true 0.
+Definition bad_cookie : creds := Ck bad_token.
 
 Definition shapes : list shape :=
-  [ (* 0 *) sh NoCred 1;
-    (* 1 *) sh (Basic 1 true false) 1;
-    (* 2 *) sh (Basic 1 false false) 1;
-    (* 3 *) sh (Basic 2 true false) 1;
-    (* 4 submitted as "Alice", normalised by reprocessUsername *) sh (Basic 1 true false) 1;
+  [ (* 0 *) sh NoCr 1;
+    (* 1 *) sh (Ba 1 true false) 1;
+    (* 2 *) sh (Ba 1 false false) 1;
+    (* 3 *) sh (Ba 2 true false) 1;
+    (* 4 submitted as "Alice", normalised by reprocessUsername *) sh (Ba 1 true false) 1;
     (* 5 limiter exhausted *)
-      {| h_origin := NoOrigin; h_tls := None; h_cred := Basic 1 true false; h_target := 1; h_limiter_ok := false |};
+      {| h_origin := NoOrigin; h_tls := None; h_creds := Ba 1 true false; h_target := 1; h_limiter_ok := false; h_addr := 0 |};
     (* 6..16 one factor bit each *)
-    sh (Cookie (tok 1 bPassword)) 1; sh (Cookie (tok 1 bFederated)) 1; sh (Cookie (tok 1 bU2F)) 1;
-    sh (Cookie (tok 1 bVIP)) 1; sh (Cookie (tok 1 bIPCert)) 1; sh (Cookie (tok 1 bTOTP)) 1;
-    sh (Cookie (tok 1 bOkta)) 1; sh (Cookie (tok 1 bBootstrap)) 1; sh (Cookie (tok 1 bKMX509)) 1;
-    sh (Cookie (tok 1 bCLI)) 1; sh (Cookie (tok 1 bFIDO2)) 1;
+    sh (Ck (tok 1 bPassword)) 1; sh (Ck (tok 1 bFederated)) 1; sh (Ck (tok 1 bU2F)) 1;
+    sh (Ck (tok 1 bVIP)) 1; sh (Ck (tok 1 bIPCert)) 1; sh (Ck (tok 1 bTOTP)) 1;
+    sh (Ck (tok 1 bOkta)) 1; sh (Ck (tok 1 bBootstrap)) 1; sh (Ck (tok 1 bKMX509)) 1;
+    sh (Ck (tok 1 bCLI)) 1; sh (Ck (tok 1 bFIDO2)) 1;
     (* 17..24 pairs *)
-    sh (Cookie (tok 1 (N.lor bPassword bU2F))) 1; sh (Cookie (tok 1 (N.lor bPassword bVIP))) 1;
-    sh (Cookie (tok 1 (N.lor bPassword bTOTP))) 1; sh (Cookie (tok 1 (N.lor bPassword bOkta))) 1;
-    sh (Cookie (tok 1 (N.lor bPassword bBootstrap))) 1; sh (Cookie (tok 1 (N.lor bPassword bFIDO2))) 1;
-    sh (Cookie (tok 1 (N.lor bFederated bTOTP))) 1; sh (Cookie (tok 1 (N.lor bPassword bCLI))) 1;
+    sh (Ck (tok 1 (N.lor bPassword bU2F))) 1; sh (Ck (tok 1 (N.lor bPassword bVIP))) 1;
+    sh (Ck (tok 1 (N.lor bPassword bTOTP))) 1; sh (Ck (tok 1 (N.lor bPassword bOkta))) 1;
+    sh (Ck (tok 1 (N.lor bPassword bBootstrap))) 1; sh (Ck (tok 1 (N.lor bPassword bFIDO2))) 1;
+    sh (Ck (tok 1 (N.lor bFederated bTOTP))) 1; sh (Ck (tok 1 (N.lor bPassword bCLI))) 1;
     (* 25..29 all named bits, none, unnamed bit 0, bit 16 alone, bit 16 + U2F *)
-    sh (Cookie (tok 1 4094)) 1; sh (Cookie (tok 1 0)) 1; sh (Cookie (tok 1 1)) 1;
-    sh (Cookie (tok 1 65536)) 1; sh (Cookie (tok 1 (65536 + 8))) 1;
+    sh (Ck (tok 1 4094)) 1; sh (Ck (tok 1 0)) 1; sh (Ck (tok 1 1)) 1;
+    sh (Ck (tok 1 65536)) 1; sh (Ck (tok 1 (65536 + 8))) 1;
     (* 30..33 expired 30 s / 1 h ago, not valid for another 30 s / 1 h *)
-    sh (Cookie (with_times (tok 1 bU2F) (-7200) (-30))) 1; sh (Cookie (with_times (tok 1 bU2F) (-7200) (-3600))) 1;
-    sh (Cookie (with_times (tok 1 bU2F) 30 3600)) 1; sh (Cookie (with_times (tok 1 bU2F) 3600 7200)) 1;
+    sh (Ck (with_times (tok 1 bU2F) (-7200) (-30))) 1; sh (Ck (with_times (tok 1 bU2F) (-7200) (-3600))) 1;
+    sh (Ck (with_times (tok 1 bU2F) 30 3600)) 1; sh (Ck (with_times (tok 1 bU2F) 3600 7200)) 1;
     (* 34..37 issuer / audience *)
-    sh (Cookie (with_flags (tok 1 bU2F) true true false false true 0)) 1;
-    sh (Cookie (with_flags (tok 1 bU2F) true true false true false 0)) 1;
-    sh (Cookie (with_flags (tok 1 bU2F) true true false true false 0)) 1;
-    sh (Cookie (with_flags (tok 1 bU2F) true true false true false 0)) 1;
+    sh (Ck (with_claims (tok 1 bU2F) other_issuer [iss0])) 1;
+    sh (Ck (with_claims (tok 1 bU2F) iss0 [other_issuer])) 1;
+    sh (Ck (with_claims (tok 1 bU2F) iss0 [])) 1;
+    sh (Ck (with_claims (tok 1 bU2F) iss0 [other_issuer; iss0])) 1;
     (* 38..40 other token kinds *)
-    sh (Cookie (with_flags (tok 1 bU2F) true true false true true 1)) 1;
-    sh (Cookie (with_flags (tok 1 bU2F) true true false true true 2)) 1;
-    sh (Cookie (with_flags (tok 1 bU2F) true true false true true 3)) 1;
+    sh (Ck (with_flags (tok 1 bU2F) true true false true true 1)) 1;
+    sh (Ck (with_flags (tok 1 bU2F) true true false true true 2)) 1;
+    sh (Ck (with_flags (tok 1 bU2F) true true false true true 3)) 1;
     (* 41..46 foreign key, alg none, HS256 keyed with the public key, flipped signature,
        altered payload, garbage *)
     sh bad_cookie 1;
-    sh (Cookie (with_flags (tok 1 bU2F) false false false true true 0)) 1;
-    sh (Cookie (with_flags (tok 1 bU2F) false false false true true 0)) 1;
-    sh (Cookie (with_flags (tok 1 bU2F) true true true true true 0)) 1;
-    sh (Cookie (with_flags (tok 1 4094) true true true true true 0)) 1;
-    sh (Cookie (with_flags (tok 1 bU2F) false false true false false 3)) 1;
+    sh (Ck (with_flags (tok 1 bU2F) false false false true true 0)) 1;
+    sh (Ck (with_flags (tok 1 bU2F) false false false true true 0)) 1;
+    sh (Ck (with_flags (tok 1 bU2F) true true true true true 0)) 1;
+    sh (Ck (with_flags (tok 1 4094) true true true true true 0)) 1;
+    sh (Ck (with_flags (tok 1 bU2F) false false true false false 3)) 1;
     (* 47..50 somebody else's name in the URL *)
     sh (u2f_cookie 2) 1; sh (u2f_cookie 1) 5; sh (u2f_cookie 1) 6; sh (u2f_cookie 1) 7;
     (* 51..55 keymaster-issued client certificates *)
-    sh_tls (cert true MainCA true 1 false false false false) NoCred 1;
-    sh_tls (cert false MainCA true 1 false false false false) NoCred 1;
-    sh_tls (cert true OtherCA false 1 false false false false) NoCred 1;
-    sh_tls (cert true MainCA true 1 true false false false) NoCred 1;
-    sh_tls (cert true MainCA true 2 false false false false) NoCred 1;
+    sh_tls (cert true MainCA true 1 false false false false) NoCr 1;
+    sh_tls (cert false MainCA true 1 false false false false) NoCr 1;
+    sh_tls (cert true OtherCA false 1 false false false false) NoCr 1;
+    sh_tls (cert true MainCA true 1 true false false false) NoCr 1;
+    sh_tls (cert true MainCA true 2 false false false false) NoCr 1;
     (* 56..60 IP-restricted automation certificates (role CA) *)
-    sh_tls (cert true RoleCA true 3 false false true true) NoCred 3;
-    sh_tls (cert true RoleCA true 3 false false false true) NoCred 3;
-    sh_tls (cert true RoleCA true 3 false false false true) NoCred 3;
-    sh_tls (cert true RoleCA true 4 false false true false) NoCred 4;
-    sh_tls (cert true RoleCA true 3 false true false true) NoCred 3;
+    sh_tls (cert true RoleCA true 3 false false true true) NoCr 3;
+    sh_tls (cert true RoleCA true 3 false false false true) NoCr 3;
+    sh_tls (cert true RoleCA true 3 false false false true) NoCr 3;
+    sh_tls (cert true RoleCA true 4 false false true false) NoCr 4;
+    sh_tls (cert true RoleCA true 3 false true false true) NoCr 3;
     (* 61..63 a client certificate and a cookie together: the certificate decides *)
     sh_tls (cert true RoleCA true 3 false false true true) (u2f_cookie 3) 3;
     sh_tls (cert true MainCA true 1 false false false false) (u2f_cookie 1) 1;
     sh_tls (cert true OtherCA false 1 false false false false) (u2f_cookie 1) 1;
     (* 64..65 address extension in a certificate signed by the main CA *)
-    sh_tls (cert true MainCA true 3 false false true true) NoCred 3;
-    sh_tls (cert true MainCA true 3 false false false true) NoCred 3;
+    sh_tls (cert true MainCA true 3 false false true true) NoCr 3;
+    sh_tls (cert true MainCA true 3 false false false true) NoCr 3;
     (* 66..70 Origin / Referer *)
     sh_origin CrossOrigin (u2f_cookie 1) 1; sh_origin SameOrigin (u2f_cookie 1) 1;
     sh_origin BadOrigin (u2f_cookie 1) 1; sh_origin SameOrigin (u2f_cookie 1) 1;
     sh_origin CrossOrigin (u2f_cookie 1) 1;
     (* 71..73 two cookies (the last one counts), cookie next to basic auth (the cookie counts) *)
-    sh bad_cookie 1; sh (u2f_cookie 1) 1; sh bad_cookie 1;
+    sh bad_cookie 1; sh (u2f_cookie 1) 1; sh (CkBa bad_token 1 true false) 1;
     (* 74..82 the client address of an IP-restricted certificate is the TCP peer, whatever the
        forwarding headers claim: loopback / outside / inside peers x X-Forwarded-For / X-Real-Ip /
        Forwarded naming an address inside or outside the blocks *)
@@ -185,7 +210,7 @@ Definition shapes : list shape :=
     ip_shape MainCA blocks10 (fwd a_loopback [a_inside] (Some a_inside) None) 3;
     ip_shape RoleCA blocks127 (fwd a_loopback [a_outside] (Some a_outside) None) 3 ].
 Definition n_shapes : N := Eval vm_compute in N.of_nat (length shapes).
-Definition default_shape : shape := sh NoCred 1.
+Definition default_shape : shape := sh NoCr 1.
 
 (* 0 ssh, 1 x509, 2 x509-kubernetes, 3 bogus, 4 ssh with an ssh-ed25519 user key *)
 Definition type_of_index (i : N) : certtype :=
@@ -210,14 +235,16 @@ Definition case_keys (ks : N) : Seal.state :=
   else Seal.sealed_init (key_cfg false).
 
 (* the server of the enumeration: no extension templates, no realm, no directory *)
-Definition case_server_ks (ks : N) (cfg : list bs) : server :=
-  {| s_keys := case_keys ks; s_cfg := cfg; s_name := case_name; s_host := [];
+Definition case_server_at (ks : N) (cfg : list bs) (addr : N) : server :=
+  {| s_keys := case_keys ks; s_cfg := cfg; s_name := case_name; s_host := case_host; s_addr := addr_of_index addr;
      s_templates := []; s_realm := None;
      s_groups := fun _ => Some []; s_methods := fun _ => Some [] |}.
+Definition case_server_ks (ks : N) (cfg : list bs) : server := case_server_at ks cfg 0.
 Definition case_server (sealed : bool) (cfg : list bs) : server := case_server_ks (if sealed then 1 else 0) cfg.
 
 Definition case_req (s : shape) (ty m : N) : certreq :=
-  {| q_method := method_of_index m; q_origin := h_origin s; q_tls := h_tls s; q_cred := h_cred s;
+  {| q_method := method_of_index m; q_origin := h_origin s; q_tls := h_tls s;
+     q_cookie := fst (h_creds s); q_basic := snd (h_creds s);
      q_target := case_name (h_target s); q_type := type_of_index ty; q_form_ok := true;
      q_key := Some (0, ed_key_of_index ty); q_add_groups := false |}.
 
@@ -232,9 +259,10 @@ Definition class_of (o : outcome) : N :=
 Definition no_expand (t u : bs) : option bs := Some t.
 
 (* the last argument is the key state (0 / 1 = the unsealed / sealed server of the basic enumeration) *)
+Definition outcome_of (s : shape) (cfg ty m ks : N) : outcome :=
+  certgen no_expand (case_server_at ks (cfg_of_index cfg) (h_addr s)) 0%Z (h_limiter_ok s) (case_req s ty m).
 Definition run_case (cfg shp ty m ks : N) : N :=
-  let s := nth (N.to_nat shp) shapes default_shape in
-  class_of (certgen no_expand (case_server_ks ks (cfg_of_index cfg)) 0%Z (h_limiter_ok s) (case_req s ty m)).
+  class_of (outcome_of (nth (N.to_nat shp) shapes default_shape) cfg ty m ks).
 
 (* ---- enumeration orders.
    full: index = (((cfg * n_shapes + shape) * 4 + type) * 3 + method) * 2 + sealed
@@ -246,22 +274,26 @@ Definition run_case (cfg shp ty m ks : N) : N :=
    key, ssh with an Ed25519 user key, x509}, and the Ed25519 user key on the two basic states *)
 Definition ks_combos : list (N * N) := [(2, 0); (2, 4); (2, 1); (3, 0); (3, 4); (3, 1); (0, 4); (1, 4)].
 Definition n_ks_combos : N := 8.
-Definition ks_case (cfg shp combo : N) : N :=
-  let '(ks, ty) := nth (N.to_nat combo) ks_combos (0, 0) in run_case cfg shp ty 0 ks.
+Definition coords := (N * N * N * N * N)%type.       (* configuration, shape, type, method, key state *)
+Definition ks_coords (cfg shp combo : N) : coords :=
+  let '(ks, ty) := nth (N.to_nat combo) ks_combos (0, 0) in (cfg, shp, ty, 0, ks).
+Definition run_coords (c : coords) : N := let '(cfg, shp, ty, m, ks) := c in run_case cfg shp ty m ks.
+Definition ks_case (cfg shp combo : N) : N := run_coords (ks_coords cfg shp combo).
 
 Definition full_a_total : N := n_cfgs * n_shapes * 24.
 Definition full_total : N := full_a_total + n_cfgs * n_shapes * n_ks_combos.
-Definition full_case (i : N) : N :=
+Definition full_coords (i : N) : coords :=
   if i <? full_a_total then
     let sealed := i mod 2 in let i := i / 2 in
     let m := i mod 3 in let i := i / 3 in
     let ty := i mod 4 in let i := i / 4 in
     let shp := i mod n_shapes in let cfg := i / n_shapes in
-    run_case cfg shp ty m sealed
+    (cfg, shp, ty, m, sealed)
   else
     let j := i - full_a_total in
     let combo := j mod n_ks_combos in let j := j / n_ks_combos in
-    ks_case (j / n_shapes) (j mod n_shapes) combo.
+    ks_coords (j / n_shapes) (j mod n_shapes) combo.
+Definition full_case (i : N) : N := run_coords (full_coords i).
 
 Definition quick_cfgs : list N := [0; 1; 4; 32; 96; 511; 513; 526].
 Definition quick_a_total : N := n_cfgs * n_shapes.
@@ -269,19 +301,20 @@ Definition quick_b_total : N := 23 * 8 * n_shapes.
 Definition quick_c_cfgs : list N := [1; 4; 511].
 Definition quick_c_total : N := n_ks_combos * 3 * n_shapes.
 Definition quick_total : N := quick_a_total + quick_b_total + quick_c_total.
-Definition quick_case (i : N) : N :=
-  if i <? quick_a_total then run_case (i / n_shapes) (i mod n_shapes) 0 0 0
+Definition quick_coords (i : N) : coords :=
+  if i <? quick_a_total then (i / n_shapes, i mod n_shapes, 0, 0, 0)
   else if quick_a_total + quick_b_total <=? i then
     let j := i - (quick_a_total + quick_b_total) in
     let shp := j mod n_shapes in let j := j / n_shapes in
     let c := j mod 3 in let combo := j / 3 in
-    ks_case (nth (N.to_nat c) quick_c_cfgs 0) shp combo
+    ks_coords (nth (N.to_nat c) quick_c_cfgs 0) shp combo
   else
     let j := i - quick_a_total in
     let shp := j mod n_shapes in let j := j / n_shapes in
     let c := j mod 8 in let combo := j / 8 + 1 in      (* combo 1..23; 0 is (ssh, POST, unsealed) *)
     let sealed := combo mod 2 in let m := (combo / 2) mod 3 in let ty := combo / 6 in
-    run_case (nth (N.to_nat c) quick_cfgs 0) shp ty m sealed.
+    (nth (N.to_nat c) quick_cfgs 0, shp, ty, m, sealed).
+Definition quick_case (i : N) : N := run_coords (quick_coords i).
 
 (* indices (from `start`) of the cases whose observed class differs from the model's *)
 Fixpoint diff_from (f : N -> N) (obs : list N) (i : N) : list N :=
@@ -289,3 +322,146 @@ Fixpoint diff_from (f : N -> N) (obs : list N) (i : N) : list N :=
   | [] => []
   | o :: r => if f i =? o then diff_from f r (i + 1) else i :: diff_from f r (i + 1)
   end.
+
+(* ---- block D: COMBINED credentials.  Every client-certificate kind x every state of the session
+   cookie (valid at each factor level, expired, not yet valid, foreign issuer / audience, other kind,
+   foreign key, unsigned, altered, no token at all) for the certificate's own user x Basic header
+   {absent, good, wrong password}, and every cookie state for ANOTHER user; then the issuer /
+   audience near-miss family (below) without a certificate.  At (ssh, POST, main signer). *)
+Definition x_levels : list N :=
+  [bPassword; bFederated; bU2F; bVIP; bIPCert; bTOTP; bOkta; bBootstrap; bKMX509; bCLI; bFIDO2].
+Definition x_cookie_states (u : N) : list wtoken :=
+  map (tok u) x_levels ++
+  [ with_times (tok u bU2F) (-7200) (-30); with_times (tok u bU2F) (-7200) (-3600);
+    with_times (tok u bTOTP) (-7200) (-30); with_times (tok u 4094) (-7200) (-3600);
+    with_times (tok u bU2F) 30 3600; with_times (tok u bU2F) 3600 7200;
+    with_times (tok u bU2F) (-100) (-1700000000);              (* no exp claim: expired in 1970 *)
+    with_times (tok u bU2F) (-1700000000) 3600;                (* no nbf claim: valid *)
+    with_times (tok u bTOTP) (-100) 2300000000;                (* expires in 2100: valid *)
+    with_claims (tok u bU2F) other_issuer [iss0]; with_claims (tok u bU2F) iss0 [other_issuer];
+    with_claims (tok u bU2F) iss0 []; with_claims (tok u bU2F) iss0 [other_issuer; iss0];
+    with_flags (tok u bU2F) true true false true true 1; with_flags (tok u bU2F) true true false true true 2;
+    with_flags (tok u bU2F) true true false true true 3;
+    with_flags (tok u bU2F) false true false true true 0;      (* signed by a foreign key *)
+    with_flags (tok u bU2F) false false false true true 0;     (* alg none *)
+    with_flags (tok u bU2F) true true true true true 0;        (* signature bit flipped *)
+    with_flags (tok u bU2F) false false true false false 3 ].  (* no token at all *)
+(* (certificate, the URL name of the request = the user of the cookie that comes with it) *)
+Definition x_certs : list (option tlsinfo * N) :=
+  [ (None, 1);
+    (Some (cert true MainCA true 1 false false false false), 1);    (* keymaster certificate of alice *)
+    (Some (cert true RoleCA true 3 false false true true), 3);      (* automation certificate, peer inside *)
+    (Some (cert true MainCA true 3 false false true true), 3);      (* address extension under the main CA, inside *)
+    (Some (cert true MainCA true 3 false false false true), 3);     (* the same from outside: a keymaster certificate only *)
+    (Some (cert true OtherCA false 1 false false false false), 1);  (* certificate of another client CA *)
+    (Some (cert true RoleCA true 3 false false false true), 3);     (* automation certificate, peer outside *)
+    (Some (cert true MainCA true 1 true false false false), 1);     (* keymaster certificate, key on the deny list *)
+    (* certificates whose common name is the empty string (subject 6), requests for alice *)
+    (Some (cert true MainCA true 6 false false false false), 1);    (* signed by the main CA: no identity, 403 *)
+    (Some (cert true RoleCA true 6 false false true true), 1);      (* role CA, peer inside, "" listed as automation user: on to the cookie *)
+    (Some (cert true MainCA true 6 false false true true), 1) ].    (* main CA with address extension, inside: on to the cookie *)
+Definition x_basics : list (option basic) := [None; Some (bas 1 true false); Some (bas 1 false false)].
+Definition x_other_user : N := 2.
+Definition x_combo (c : option tlsinfo * N) : list shape :=
+  let '(tl, u) := c in
+  let mk (b : option basic) (ck : option wtoken) :=
+    {| h_origin := NoOrigin; h_tls := tl; h_creds := (ck, b); h_target := u; h_limiter_ok := true; h_addr := 0 |} in
+  flat_map (fun b => map (mk b) (None :: map Some (x_cookie_states u))) x_basics ++
+  map (fun t => mk None (Some t)) (x_cookie_states x_other_user).
+
+(* the near-miss family of an issuer string I: every string that is almost, but not, I *)
+Definition upper_byte (c : N) : N := if (97 <=? c) && (c <=? 122) then c - 32 else c.
+Definition near_misses (a : N) : list bs :=
+  let I := case_issuer a in
+  [ removelast I;                                  (* proper prefix: the last byte cut *)
+    firstn 12 I;                                   (* proper prefix: "https://keym" *)
+    I ++ [48];                                     (* extended by a digit *)
+    I ++ [58;49];                                  (* ":1" appended: another port *)
+    I ++ [46;97;117];                              (* ".au": another label *)
+    I ++ [101;118;105;108];                        (* "evil": longer host name *)
+    I ++ [47];                                     (* trailing slash *)
+    I ++ [47;120];                                 (* a path *)
+    I ++ [46];                                     (* trailing dot *)
+    map upper_byte I;                              (* upper case *)
+    s_https ++ map upper_byte (skipn 8 I);         (* host in upper case *)
+    [104;116;116;112;58;47;47] ++ skipn 8 I;       (* scheme http *)
+    32 :: I;                                       (* leading blank *)
+    I ++ [32];                                     (* trailing blank *)
+    [];                                            (* empty *)
+    skipn 8 I;                                     (* no scheme *)
+    other_issuer;                                  (* unrelated *)
+    case_issuer (1 - a);                           (* the same host at the other listen address *)
+    removelast I ++ [102] ].                       (* last byte replaced *)
+Definition x_family (a : N) : list shape :=
+  let I := case_issuer a in
+  let mk (iss : bs) (aud : list bs) :=
+    {| h_origin := NoOrigin; h_tls := None; h_creds := (Some (with_claims (tok 1 bU2F) iss aud), None);
+       h_target := 1; h_limiter_ok := true; h_addr := a |} in
+  mk I [I] ::
+  flat_map (fun m => [mk m [I]; mk I [m]; mk m [m]; mk I [m; I]; mk I [I; m]]) (near_misses a).
+Definition xshapes : list shape := Eval vm_compute in (flat_map x_combo x_certs ++ flat_map x_family [0; 1]).
+Definition n_xshapes : N := Eval vm_compute in N.of_nat (length xshapes).
+Definition quick_d_cfgs : list N := [0; 1; 16; 36].
+(* thorough: every eighth subset and the sixteen other lists *)
+Definition full_d_cfgs : list N := Eval vm_compute in (map (fun i => 8 * i + 4) (map N.of_nat (seq 0 64)) ++ map (fun i => 512 + i) (map N.of_nat (seq 0 16))).
+Definition x_cases (cfgs : list N) : list (N * shape) := flat_map (fun cfg => map (pair cfg) xshapes) cfgs.
+Definition run_xcase (c : N * shape) : N := class_of (outcome_of (snd c) (fst c) 0 0 0).
+
+(* ---- the property's own predicate, as a decision procedure: does the request entitle user u to a
+   certificate - unsealed server, POST, the URL names u, and some credential the request carries
+   validly establishes u at a level the operator's list accepts?  (Proofs/Certgen.v entitled_iff:
+   this decides the specification of Proofs/CertgenSpec.v.) *)
+Definition valid_session_b (issuer : bs) (now : Z) (w : wtoken) : bool :=
+  w_signer_trusted w && w_alg_allowed w && negb (w_tampered w) && bs_eqb (w_iss w) issuer &&
+  aud0_is (w_aud w) issuer && (w_kind w =? 0) && (w_nbf w <=? now)%Z && (now <=? w_exp w)%Z.
+Definition keymaster_cert_b (c : tlsinfo) : bool :=
+  c_chain2 c && negb (match c_issuer c with RoleCA => true | _ => false end) && c_issuer_key_trusted c && negb (c_denied c).
+Definition ip_cert_ok_b (c : tlsinfo) : bool :=
+  negb (c_ip_error c) && c_ip_valid c && c_automation c && negb (c_revoked c).
+Definition proved_levels (st : server) (now : Z) (q : certreq) (u : N) : list N :=
+  match q_cookie q with
+  | Some w => if valid_session_b (issuer_of st) now w && (w_sub w =? u) then [w_level w] else []
+  | None => []
+  end ++
+  match q_basic q with
+  | Some b => if b_ok b && negb (b_err b) && (b_user b =? u) then [bPassword] else []
+  | None => []
+  end ++
+  match q_tls q with
+  | Some c => if (c_cn c =? u) && negb (bs_eqb (s_name st u) []) then
+                (if keymaster_cert_b c then [bKMX509] else []) ++ (if ip_cert_ok_b c then [bIPCert] else []) ++
+                (if keymaster_cert_b c && ip_cert_ok_b c then [N.lor bKMX509 bIPCert] else [])
+              else []
+  | None => []
+  end.
+Definition entitled (st : server) (now : Z) (q : certreq) (u : N) : bool :=
+  negb (s_sealed st) && match q_method q with HPost => true | _ => false end &&
+  bs_eqb (q_target q) (s_name st u) && existsb (sufficient (s_cfg st)) (proved_levels st now q u).
+
+(* the property evaluated on an OBSERVED class: 1 = a certificate for somebody the request does not
+   entitle, 2 = neither an error nor a certificate, 0 = the observation satisfies the property *)
+Definition obs_violation (st : server) (q : certreq) (o : N) : N :=
+  if o =? 1 then 2
+  else if 2 <=? o then (if entitled st 0%Z q ((o - 2) / 4) then 0 else 1)
+  else 0.
+Definition coords_violation (c : coords) (o : N) : N :=
+  let '(cfg, shp, ty, m, ks) := c in
+  let s := nth (N.to_nat shp) shapes default_shape in
+  obs_violation (case_server_at ks (cfg_of_index cfg) (h_addr s)) (case_req s ty m) o.
+(* one pass over the observed classes: (index, violation class) of every case whose observed class
+   differs from the model's; class 0 = the observation still satisfies the property *)
+Fixpoint diffv_from (cf : N -> coords) (obs : list N) (i : N) : list (N * N) :=
+  match obs with
+  | [] => []
+  | o :: r => if run_coords (cf i) =? o then diffv_from cf r (i + 1)
+              else (i, coords_violation (cf i) o) :: diffv_from cf r (i + 1)
+  end.
+Fixpoint xdiffv_from (cs : list (N * shape)) (obs : list N) (i : N) : list (N * N) :=
+  match cs, obs with
+  | c :: cr, o :: r =>
+      if run_xcase c =? o then xdiffv_from cr r (i + 1)
+      else let s := snd c in
+           (i, obs_violation (case_server_at 0 (cfg_of_index (fst c)) (h_addr s)) (case_req s 0 0) o) :: xdiffv_from cr r (i + 1)
+  | _, _ => []
+  end.
+Definition violating (l : list (N * N)) : list (N * N) := filter (fun p => negb (snd p =? 0)) l.
